@@ -678,8 +678,50 @@ def oracle_order(c):
     return _dedupe(v)
 
 
+# ==========================================================================================
+# oracle 7: the eigenstrain an object uses is the one it was given (scalar / 3-vector / tensor forms, other objects, earlier values)
+def gen_eigen_case(rng):
+    sh = np.zeros((3, 3))
+    i, j = [(0, 1), (0, 2), (1, 2)][int(rng.integers(0, 3))]
+    sh[i, j] = sh[j, i] = float(10 ** rng.uniform(-3, -1.5))
+    return {'kind': 'eigen', 'cM': gen_cubic(rng), 'r': gen_radii(rng)[0], 'e1': float(10 ** rng.uniform(-3, -1.5)),
+            'e2': [float(x) for x in rng.uniform(-1, 1, 3) * 10 ** rng.uniform(-3, -1.5)], 'shear': sh.tolist()}
+
+
+def oracle_eigen(c):
+    v = []
+    r = np.array(c['r'])
+    try:
+        ref = lambda eps: float(quiet(make_se('ellipsoid', c['cM'], None, None, None, np.array(eps, dtype=float).tolist(), 'low').compute, r))
+        want1 = ref(np.eye(3) * c['e1'])
+        want2 = ref(np.diag(c['e2']))
+        # another object sets its own eigenstrain afterwards
+        a = quiet(make_se, 'ellipsoid', c['cM'], None, None, None, c['e1'], 'low')
+        b = quiet(make_se, 'ellipsoid', c['cM'], None, None, None, c['e2'], 'low')
+        Ea, Eb = float(quiet(a.compute, r)), float(quiet(b.compute, r))
+        if rel(Ea, want1) > 1e-10:
+            v.append(('eigenstrain_setter', 'after another object set its eigenstrain', 'object with eigenstrain %r gives %r after a second object was given %r; alone it gives %r'
+                      % (c['e1'], Ea, c['e2'], want1)))
+        if rel(Eb, want2) > 1e-10:
+            v.append(('eigenstrain_setter', '3-vector form', 'setEigenstrain(%r) gives %r, the diagonal tensor %r' % (c['e2'], Eb, want2)))
+        # a scalar replaces a tensor set earlier on the same object
+        d = quiet(make_se, 'ellipsoid', c['cM'], None, None, None, c['shear'], 'low')
+        d.setEigenstrain(c['e1'])
+        Ed = float(quiet(d.compute, r))
+        if rel(Ed, want1) > 1e-10:
+            v.append(('eigenstrain_setter', 'scalar after a tensor', 'setEigenstrain(tensor) then setEigenstrain(%r) gives %r, setEigenstrain(%r) alone %r' % (c['e1'], Ed, c['e1'], want1)))
+        # an object created afterwards starts from its own value
+        f = quiet(make_se, 'ellipsoid', c['cM'], None, None, None, c['e1'], 'low')
+        Ef = float(quiet(f.compute, r))
+        if rel(Ef, want1) > 1e-10:
+            v.append(('eigenstrain_setter', 'fresh object', 'a fresh object with eigenstrain %r gives %r, expected %r' % (c['e1'], Ef, want1)))
+    except Exception as e:
+        v.append(('no_internal_error', 'exception', 'eigenstrain setter sequence raised %s: %s' % (type(e).__name__, e)))
+    return _dedupe(v)
+
+
 ORACLES = {'energy': oracle_energy, 'iso': oracle_iso, 'lebedev': oracle_lebedev, 'moduli': oracle_moduli,
-           'convert': oracle_convert, 'order': oracle_order}
+           'convert': oracle_convert, 'order': oracle_order, 'eigen': oracle_eigen}
 
 
 def evaluate_case(c):
@@ -694,6 +736,7 @@ def gen_search(rng, quick, budget=1.0):
     cases += [gen_moduli_case(rng) for _ in range(n(25, 600))]
     cases += [gen_convert_case(rng) for _ in range(n(15, 300))]
     cases += [gen_order_case(rng) for _ in range(n(15, 300))]
+    cases += [gen_eigen_case(rng) for _ in range(n(8, 150))]
     return cases
 
 
